@@ -157,4 +157,79 @@ theorem publish_depth_mono (P : Prog) (n m : Nat) (hnm : n ≤ m) :
   unfold publishFnN publishEN
   rw [this, ← hs]
 
+theorem isStateless_mono {x y : Option (List LCell)} (hxy : ∀ s, x = some s → y = some s)
+    (h : isStateless x = true) : isStateless y = true := by
+  cases x with
+  | none => simp [isStateless] at h
+  | some s => rw [hxy s rfl]; exact h
+
+mutual
+theorem armsZE_mono (tbl tbl' : Table) (ok ok' : String → Bool) (hle : TableLe tbl tbl')
+    (hok : ∀ f, ok f = true → ok' f = true) :
+    ∀ e : Expr, armsZE tbl ok e = true → armsZE tbl' ok' e = true
+  | .lit _, _ => by rw [armsZE]
+  | .var _, _ => by rw [armsZE]
+  | .now, _ => by rw [armsZE]
+  | .samplerate, _ => by rw [armsZE]
+  | .self, _ => by rw [armsZE]
+  | .lam _ _, _ => by rw [armsZE]
+  | .un _ a, h => by rw [armsZE] at h ⊢; exact armsZE_mono tbl tbl' ok ok' hle hok a h
+  | .proj a _, h => by rw [armsZE] at h ⊢; exact armsZE_mono tbl tbl' ok ok' hle hok a h
+  | .mem a _, h => by rw [armsZE] at h ⊢; exact armsZE_mono tbl tbl' ok ok' hle hok a h
+  | .bin _ a b, h => by
+    rw [armsZE, Bool.and_eq_true] at h ⊢
+    exact ⟨armsZE_mono tbl tbl' ok ok' hle hok a h.1, armsZE_mono tbl tbl' ok ok' hle hok b h.2⟩
+  | .letE _ a b, h => by
+    rw [armsZE, Bool.and_eq_true] at h ⊢
+    exact ⟨armsZE_mono tbl tbl' ok ok' hle hok a h.1, armsZE_mono tbl tbl' ok ok' hle hok b h.2⟩
+  | .letTup _ a b, h => by
+    rw [armsZE, Bool.and_eq_true] at h ⊢
+    exact ⟨armsZE_mono tbl tbl' ok ok' hle hok a h.1, armsZE_mono tbl tbl' ok ok' hle hok b h.2⟩
+  | .assign _ a b, h => by
+    rw [armsZE, Bool.and_eq_true] at h ⊢
+    exact ⟨armsZE_mono tbl tbl' ok ok' hle hok a h.1, armsZE_mono tbl tbl' ok ok' hle hok b h.2⟩
+  | .delay _ a t _, h => by
+    rw [armsZE, Bool.and_eq_true] at h ⊢
+    exact ⟨armsZE_mono tbl tbl' ok ok' hle hok a h.1, armsZE_mono tbl tbl' ok ok' hle hok t h.2⟩
+  | .ite c a b, h => by
+    rw [armsZE] at h ⊢
+    simp only [Bool.and_eq_true] at h ⊢
+    obtain ⟨⟨⟨oc, oa⟩, ea⟩, eb⟩ := h
+    exact ⟨⟨⟨armsZE_mono tbl tbl' ok ok' hle hok c oc, armsZE_mono tbl tbl' ok ok' hle hok a oa⟩,
+      isStateless_mono (pubE_mono tbl tbl' hle a) ea⟩, isStateless_mono (pubE_mono tbl tbl' hle b) eb⟩
+  | .tup es, h => by rw [armsZE] at h ⊢; exact armsZL_mono tbl tbl' ok ok' hle hok es h
+  | .app f args, h => by
+    rw [armsZE, Bool.and_eq_true] at h ⊢
+    exact ⟨armsZE_mono tbl tbl' ok ok' hle hok f h.1, armsZL_mono tbl tbl' ok ok' hle hok args h.2⟩
+  | .call f args _, h => by
+    rw [armsZE, Bool.and_eq_true] at h ⊢
+    exact ⟨armsZL_mono tbl tbl' ok ok' hle hok args h.1, hok f h.2⟩
+theorem armsZL_mono (tbl tbl' : Table) (ok ok' : String → Bool) (hle : TableLe tbl tbl')
+    (hok : ∀ f, ok f = true → ok' f = true) :
+    ∀ es : List Expr, armsZL tbl ok es = true → armsZL tbl' ok' es = true
+  | [], _ => by rw [armsZL]
+  | e :: es, h => by
+    rw [armsZL, Bool.and_eq_true] at h ⊢
+    exact ⟨armsZE_mono tbl tbl' ok ok' hle hok e h.1, armsZL_mono tbl tbl' ok ok' hle hok es h.2⟩
+end
+
+theorem okTableZ_succ (P : Prog) : ∀ n f, okTableZ P n f = true → okTableZ P (n + 1) f = true
+  | 0, f, h => by simp [okTableZ] at h
+  | n + 1, f, h => by
+    rw [okTableZ] at h ⊢
+    cases hd : findFn P.fns f with
+    | none => simp [hd] at h
+    | some d =>
+      simp only [hd] at h ⊢
+      exact armsZE_mono _ _ _ _ (table_succ P n) (okTableZ_succ P n) d.body h
+
+theorem okTableZ_le (P : Prog) (n : Nat) : ∀ k f, okTableZ P n f = true → okTableZ P (n + k) f = true
+  | 0, _, h => h
+  | k + 1, f, h => okTableZ_succ P (n + k) f (okTableZ_le P n k f h)
+
+theorem noStatefulInArmsN_mono (P : Prog) (n m : Nat) (hnm : n ≤ m) (e : Expr) (h : noStatefulInArmsN n P e = true) :
+    noStatefulInArmsN m P e = true := by
+  obtain ⟨k, rfl⟩ := Nat.exists_eq_add_of_le hnm
+  exact armsZE_mono _ _ _ _ (table_le P n k) (okTableZ_le P n k) e h
+
 end Mimium.Publish
